@@ -183,6 +183,14 @@ def no_partial_overlap(apps, limit=40):
             if key in seen:
                 continue
             seen.add(key)
+            dd = z3.simplify(a1 - a2)
+            if z3.is_bv_value(dd):
+                # a constant distance apart: disjoint, or linked through the byte view (files._note_symbolic)
+                from symx.core import eng as _eng
+
+                d = dd.as_signed_long()
+                if not (-n1 < d < n2) or getattr(_eng(), "link_symbolic", False):
+                    continue
             w = a1.size()
             same_b = a1 == a2 if n1 == n2 else z3.BoolVal(False)
             same_i = i1 == i2 if n1 == n2 else z3.BoolVal(False)
